@@ -4,6 +4,7 @@ import (
 	"fmt"
 	"go/types"
 	"math/big"
+	"strings"
 
 	"golang.org/x/tools/go/ssa"
 )
@@ -326,7 +327,7 @@ func (u *Unit) beBytesSeq(st *State, v *Term, n int) SliceV {
 }
 
 func (u *Unit) intrinsic(st *State, fr *Frame, in *ssa.Call, fn *ssa.Function, args []Val) (Val, bool) {
-	switch fn.Name() {
+	switch strings.TrimPrefix(fn.Name(), "gvc_") {
 	case "assert":
 		if u.specMode > 0 {
 			return nil, true
@@ -378,7 +379,7 @@ func (u *Unit) intrinsic(st *State, fr *Frame, in *ssa.Call, fn *ssa.Function, a
 		return SliceV{Blk: s.Blk, Off: Add(s.Off, lo), Len: ln, Cap: ln, Elem: s.Elem}, true
 	case "u16", "u32":
 		n := int64(2)
-		if fn.Name() == "u32" {
+		if strings.HasSuffix(fn.Name(), "u32") {
 			n = 4
 		}
 		a, o, l := u.seqOf(st, args[0])
@@ -413,7 +414,7 @@ func (u *Unit) intrinsic(st *State, fr *Frame, in *ssa.Call, fn *ssa.Function, a
 		body := u.evalPure(st, f.Fn, []Val{i}, f.Bind).(*Term)
 		u.binder--
 		rng := And(Le(lo, i), Lt(i, hi))
-		if fn.Name() == "forall" {
+		if strings.HasSuffix(fn.Name(), "forall") {
 			return Forall(v, Implies(rng, body)), true
 		}
 		return Exists(v, And(rng, body)), true
